@@ -452,6 +452,8 @@ class Ev:
             if head == self.selfname and d.count(".") == 1 and at.id in self.view.reach:
                 return self.self_attr(e.attr, at)
         b = ev(e.value)
+        if b[0] == "ntuple" and e.attr in dict(b[2]):
+            return dict(b[2])[e.attr]
         if b[0] == "glob":
             full = b[1] + "." + e.attr
             return ("glob", self.repo._follow(full) if full.startswith("esutil") else full)
@@ -605,7 +607,76 @@ class Ev:
             oev, oat = self.outer
             if oev.fi is not None and oev.selfname is not None and oat is not None and oat.id in oev.view.reach:
                 return oev.self_attr(attr, oat)
+        if not ds and self.through_helpers:
+            t = self._attr_set_by_helper(attr, at)
+            if t is not None:
+                return t
         return ("attr", SELF, attr)
+
+    through_helpers = False     # opt-in (per rule): self.x that this method does not assign is what a helper method called on self stored
+
+    def _may_assign(self, fi, attr, seen=None):
+        """can a call of the method fi assign self.<attr> (directly, through setattr / __dict__, or through methods it calls on self)"""
+        seen = seen if seen is not None else set()
+        if fi.qualname in seen:
+            return False
+        seen.add(fi.qualname)
+        sn = _selfname(fi)
+        if sn is None:
+            return True
+        for x in walk_no_nested(fi.node):
+            if isinstance(x, (ast.Assign, ast.AugAssign, ast.AnnAssign, ast.Delete, ast.For, ast.With, ast.NamedExpr)):
+                tg = x.targets if isinstance(x, (ast.Assign, ast.Delete)) else ([it.optional_vars for it in x.items if it.optional_vars is not None] if isinstance(x, ast.With) else [x.target])
+                if any(_self_attr(y, sn) == attr for t in tg for y in rules._flat_targets(t)):
+                    return True
+            elif isinstance(x, ast.Call):
+                f = x.func
+                if isinstance(f, ast.Name) and f.id in ("setattr", "delattr") and x.args and isinstance(x.args[0], ast.Name) and x.args[0].id == sn:
+                    if not (len(x.args) > 1 and isinstance(x.args[1], ast.Constant) and x.args[1].value != attr):
+                        return True
+                elif _self_attr(f, sn) is not None and fi.cls:
+                    g = self.repo.funcs.get("%s.%s.%s" % (fi.module.name, fi.cls, f.attr))
+                    if g is not None and self._may_assign(g, attr, seen):
+                        return True
+                elif any(isinstance(a, ast.Name) and a.id == sn for a in list(x.args) + [k.value for k in x.keywords]):
+                    return True         # the object itself handed to something else
+            elif isinstance(x, ast.Attribute) and x.attr == "__dict__" and isinstance(x.value, ast.Name) and x.value.id == sn:
+                return True
+        return False
+
+    def _attr_set_by_helper(self, attr, at):
+        """self.<attr> at node `at` of a method that does not assign it itself: when one call `self.h(...)` dominates `at`, no other
+        call that can assign the attribute lies between that call and `at`, and h assigns the attribute exactly once on every way to
+        its end, the value h stores (its parameters bound to the arguments of the call); None otherwise"""
+        cands = []
+        for n in self.view.nodes():
+            for c in rules.stmts_calls(n):
+                g = self.resolve_self_method(c)
+                if g is not None and self._may_assign(g, attr):
+                    cands.append((n, c, g))
+        if any(n.id == at.id for n, _, _ in cands):
+            return None
+        last = [(n, c, g) for n, c, g in cands if self.view.dominates(n, at)
+                and not any(m.id != n.id and self.view.reaches(m, at, avoiding=[n]) for m, _, _ in cands)
+                and len([1 for m, _, _ in cands if m.id == n.id]) == 1]
+        if len(last) != 1 or self.depth >= self.MAXDEPTH:
+            return None
+        n, c, g = last[0]
+        if g.qualname in self.stack or g is self.fi:
+            return None
+        args, kws = self._args(c, lambda x: self.ev(x, n))
+        b = self.bind(g, args, kws, skip_self=True)
+        if b is None:
+            return None
+        sub = Ev(self.repo, g, flags=self.flags, binds=b, depth=self.depth + 1, stack=self.stack + (self.fi.qualname,), outer=(self, n))
+        ds = sub.attr_defs().get("%s.%s" % (sub.selfname, attr), [])
+        # the one assignment in the helper, on every way to its end; nothing else in the helper may assign the attribute
+        others = [cc for m in sub.view.nodes() for cc in rules.stmts_calls(m)
+                  if (sub.resolve_self_method(cc) is not None and self._may_assign(sub.resolve_self_method(cc), attr))
+                  or (isinstance(cc.func, ast.Name) and cc.func.id in ("setattr", "delattr"))]
+        if len(ds) != 1 or ds[0][1] is None or others or not sub.view.dominates(ds[0][0], sub.cfg.exit):
+            return None
+        return sub.ev(ds[0][1], ds[0][0])
 
     # -- calls ------------------------------------------------------------
     def _args(self, c, ev):
@@ -636,11 +707,13 @@ class Ev:
         rets = []
         for n in sub.view.nodes():
             a = n.ast
-            if n.kind in ("entry", "exit", "branch"):
+            if n.kind in ("entry", "exit", "raise_exit", "branch"):
                 continue
             if n.kind == "return":
                 rets.append(n)
                 continue
+            if n.kind == "raise":
+                continue            # a guard clause that raises: when the helper returns, it returns what its return statement says
             if n.kind == "with" and all(it.optional_vars is None or isinstance(it.optional_vars, ast.Name) for it in a.items):
                 continue            # `with open(...) as f:` around the assignments: f is ("ctx", <the expression>)
             if n.kind == "stmt":
@@ -697,8 +770,33 @@ class Ev:
         if ft[0] == "glob":
             if ft[1] in ("str",) and len(args) == 1 and not kws:
                 return args[0]
+            if ft[1] == "len" and len(args) == 1 and not kws and args[0][0] in ("tuple", "list") and not any(x[0] == "star" for x in args[0][1]):
+                return lit(len(args[0][1]))         # the length of a display (one that is filled in later is ("mutable", name), not a display)
             return ("call", ft[1], args, kws)
+        nt = _namedtuple_fields(ft)
+        if nt is not None and not any(a[0] == "star" for a in args) and not any(k == "**" for k, _ in kws):
+            # a record type made by collections.namedtuple called with its fields: the record, field by field
+            vals = dict(zip(nt[1], args))
+            if len(args) <= len(nt[1]) and not any(k in vals or k not in nt[1] for k, _ in kws):
+                vals.update(kws)
+                if set(vals) == set(nt[1]):
+                    return ("ntuple", nt[0], tuple((f_, vals[f_]) for f_ in nt[1]))
         return ("callx", ft, args, kws)
+
+
+def _namedtuple_fields(t):
+    """t is collections.namedtuple(<name>, <field names>) with constant arguments: (name, [fields]) or None"""
+    if t[0] == "call" and t[1] in ("collections.namedtuple", "typing.NamedTuple") and len(t[2]) == 2 and not t[3] and is_lit(t[2][0], str):
+        f = t[2][1]
+        if is_lit(f, str):
+            names = f[1].replace(",", " ").split()
+        elif f[0] in ("list", "tuple") and all(is_lit(x, str) for x in f[1]):
+            names = [x[1] for x in f[1]]
+        else:
+            return None
+        if t[1] == "collections.namedtuple" and names and len(set(names)) == len(names):
+            return t[2][0][1], names
+    return None
 
 
 def _stringy(t):
@@ -814,6 +912,56 @@ def path_literals(ev, node):
     return out
 
 
+def callee_ev(ev, n, c):
+    """the evaluation context of a private helper (method called on self, function of the module) called at node n, its parameters
+    bound to the arguments; None when the call is not one of those"""
+    callee, skip = ev.resolve_self_method(c), True
+    if callee is None:
+        callee, skip = ev.resolve_module_function(c), False
+    if callee is None or ev.fi is None or callee.qualname in ev.stack or callee is ev.fi or ev.depth >= 3:
+        return None
+    args, kws = ev._args(c, lambda x: ev.ev(x, n))
+    b = ev.bind(callee, args, kws, skip_self=skip)
+    if b is None:
+        return None
+    return Ev(ev.repo, callee, flags=ev.flags, binds=b, depth=ev.depth + 1, stack=ev.stack + (ev.fi.qualname,), outer=(ev, n) if skip else None)
+
+
+def return_facts(ev):
+    """canonical literals that hold whenever the function returns: those common to all its return statements (none when it can
+    also run off its end)"""
+    rets = [n for n in ev.view.nodes() if n.kind == "return"]
+    if not rets or any(m.kind != "return" for m in ev.view.pred(ev.cfg.exit)):
+        return []
+    sets = [facts_at(ev, r) for r in rets]
+    return [x for x in sets[0] if all(x in s_ for s_ in sets[1:])]
+
+
+def facts_at(ev, node):
+    """path literals of the node, plus what the private helpers called on the way guarantee by having returned: a helper that
+    raises unless a condition holds, called at a statement that dominates the node, establishes that condition"""
+    out = list(path_literals(ev, node))
+    for m in ev.view.nodes():
+        if m.kind in ("entry", "exit", "raise_exit") or not ev.view.dominates(m, node):
+            continue
+        for c in rules.stmts_calls(m):
+            sub = callee_ev(ev, m, c)
+            if sub is not None:
+                out.extend(x for x in return_facts(sub) if x not in out)
+    return out
+
+
+def all_raises(ev):
+    """[(ev, node)] for the raise statements of the function and of the private helpers it calls"""
+    out = [(ev, n) for n in ev.view.nodes() if n.kind == "raise"]
+    for n in ev.view.nodes():
+        for c in rules.stmts_calls(n):
+            sub = callee_ev(ev, n, c)
+            if sub is not None:
+                out.extend(all_raises(sub))
+    return out
+
+
 def excluded_values(lits):
     """{term: set of constants} for `term not in {...}` facts among the literals (x != c, x not in (..), conjunctions)"""
     out = {}
@@ -914,6 +1062,11 @@ def const_eval(e, env, mod, depth=0):
         return tuple(out) if isinstance(e, ast.Tuple) else out
     if isinstance(e, ast.Set):
         return frozenset(ce(x) for x in e.elts)
+    if isinstance(e, ast.Dict) and all(k is not None for k in e.keys):
+        try:
+            return {ce(k): ce(v) for k, v in zip(e.keys, e.values)}
+        except TypeError:
+            raise NotConst()
     if isinstance(e, ast.BinOp) and isinstance(e.op, ast.Add):
         a, b = ce(e.left), ce(e.right)
         if type(a) is type(b) and isinstance(a, (tuple, list, str)):
@@ -999,12 +1152,18 @@ def cwhere(node_or_decl):
     return "%s:%s" % (W, ln) if ln else W
 
 
-def c_inits(fn):
-    """{local name: initialiser} for locals that are initialised at their declaration and never assigned again"""
+def c_inits(fn, region=None):
+    """{local name: initialiser} for locals that are initialised at their declaration and never assigned again.  With `region` (a
+    statement, or a set of ids of nodes) only the declarations inside it are taken: the same name declared in two sibling scopes
+    (`int c = fgetc(f)` inside a loop and again after it) is two variables"""
     body = cfront.body_of(fn)
     inits, written = {}, set()
+    if isinstance(region, dict):
+        region = {id(x) for x in cfront.walk(region)}
     for x in cfront.walk(body):
         k = x.get("kind")
+        if k == "VarDecl" and x.get("name") and region is not None and id(x) not in region:
+            continue
         if k == "VarDecl" and x.get("name"):
             init = [y for y in x.get("inner", []) or [] if isinstance(y, dict) and y.get("kind")]
             if init:
@@ -1034,6 +1193,30 @@ def c_string_consts(fn):
             if v is not None:
                 out[x["name"]] = v
     return out
+
+
+def c_const_int(n, inits):
+    """value of a C integer constant expression over literals, sizeof of a string literal / of a constant char array initialised with
+    one (its length plus the terminating NUL), once-initialised locals and + - *; None when it is anything else"""
+    n = cfront.strip(c_subst(n, inits))
+    k = n.get("kind")
+    inner = [y for y in (n.get("inner") or []) if isinstance(y, dict)]
+    if k == "IntegerLiteral":
+        try:
+            return int(n.get("value"))
+        except (TypeError, ValueError):
+            return None
+    if k == "UnaryExprOrTypeTraitExpr" and n.get("name", "sizeof") == "sizeof" and inner:
+        lit_ = c_string_literal(inner[0])
+        return None if lit_ is None else len(lit_.encode("latin-1", "replace")) + 1
+    if k == "BinaryOperator" and n.get("opcode") in ("+", "-", "*") and len(inner) == 2:
+        a, b = c_const_int(inner[0], {}), c_const_int(inner[1], {})
+        if a is None or b is None:
+            return None
+        return a + b if n["opcode"] == "+" else (a - b if n["opcode"] == "-" else a * b)
+    if k == "CXXMemberCallExpr" and cfront.callee_name(n) in ("size", "length") and not cfront.call_args(n):
+        return None
+    return None
 
 
 def c_subst(n, inits, depth=0):
@@ -1348,6 +1531,7 @@ def scan_length_bounds(rd):
         if n.id not in view.reach:
             continue
         ctl = [(b.c, lab == "T") for b, lab in view.controlling_branches(n) if b.c is not None and lab in ("T", "F")]
+        ctl = [y for c, t in ctl for y in _c_conjuncts(c, t)]          # `if (a && b)` is `if (a) if (b)`
         conds, want, what, how = [], EXCEEDED, None, "is taken when"
         if n.kind == "return":
             # the text is returned: that must not require the scanned length to stay under a constant
@@ -1356,7 +1540,7 @@ def scan_length_bounds(rd):
             # giving up / leaving the scan; an exit that also depends on what was read (end of file, an I/O error, the sentinel
             # found) is not an exit because of the length
             if not any(about_the_bytes(c) and bound(c, t, EXCEEDED) is None and
-                       (_has_sentinel_cmp(c) or _eof_test(c, t, bytevars)) for c, t in ctl):
+                       ((_has_sentinel_cmp(c) and _sentinel_mismatch(c, t) is not True) or _eof_test(c, t, bytevars)) for c, t in ctl):
                 conds, what = ctl, ("the throw" if n.kind == "raise" else "the %s" % n.label)
         elif n.kind == "loop" and n.c is not None and id(n.c) in inloop:
             # leaving the scanning loop (or a loop inside it) because its condition became false
@@ -1372,6 +1556,37 @@ def scan_length_bounds(rd):
     if found_part:
         return None, found_part[0] + " (the comparison is one part of a compound condition: not decided)", found_part[1]
     return True, "", rd.get("line")
+
+
+def _sentinel_mismatch(cond, truth):
+    """the condition, taken with this truth value, says that the sentinel comparison did NOT match (strncmp / memcmp / compare
+    returned non-zero): True / False; None when the condition is not a plain test of the comparison's result"""
+    n = cfront.strip(cond)
+    while n.get("kind") == "UnaryOperator" and n.get("opcode") == "!":
+        n = cfront.strip(n["inner"][0])
+        truth = not truth
+    is_cmp = lambda x: (x.get("kind") == "CallExpr" and cfront.callee_name(x) in ("strncmp", "memcmp")) or \
+        (x.get("kind") == "CXXMemberCallExpr" and cfront.callee_name(x) == "compare")
+    if is_cmp(n):
+        return truth                    # a non-zero result used as a truth value
+    if n.get("kind") == "BinaryOperator" and n.get("opcode") in ("==", "!="):
+        a, b = [cfront.strip(x) for x in n["inner"]]
+        if is_cmp(b):
+            a, b = b, a
+        if is_cmp(a) and b.get("kind") == "IntegerLiteral" and str(b.get("value")) == "0":
+            return (n["opcode"] == "!=") == truth
+    return None
+
+
+def _c_conjuncts(cond, truth):
+    """the conditions that all hold when `cond` is taken with this truth value: a && b taken true is a and b, a || b taken false
+    is !a and !b, `!` unfolded; anything else is itself"""
+    n = cfront.strip(cond)
+    if n.get("kind") == "UnaryOperator" and n.get("opcode") == "!":
+        return _c_conjuncts(n["inner"][0], not truth)
+    if n.get("kind") == "BinaryOperator" and ((n.get("opcode") == "&&" and truth) or (n.get("opcode") == "||" and not truth)):
+        return [y for x in n["inner"] for y in _c_conjuncts(x, truth)]
+    return [(cond, truth)]
 
 
 def _eof_test(cond, truth, bytevars):
@@ -1480,17 +1695,23 @@ def reader_model(rd):
         S = c_string_literal(args[2])
         if S is None:
             S = c_string_consts(rd).get(sname)
+        if S is None:
+            S = c_string_literal(c_subst(args[2], inits))           # `static const char marker[] = "..."`, never assigned
         ltxt = c_render(args[1], inits)
         if ltxt.isdigit():
             width = int(ltxt)
         elif ltxt in ("%s.size()" % sname, "%s.length()" % sname) and S is not None:
             width = len(S)
+        elif c_const_int(args[1], inits) is not None:
+            width = c_const_int(args[1], inits)                     # sizeof(marker) - 1, a named constant ...
         else:
             raise AnalysisError("compared length %s in read_sfile_header not understood" % ltxt)
         ptxt = c_render(args[0], inits)
         tail = ptxt in ("(%s.size() - %s)" % (base, ltxt), "(%s.length() - %s)" % (base, ltxt), "(%s.size() - %d)" % (base, width))
         # every byte read in the loop is appended to the text exactly once, before the comparison
-        byte = [k for k, v in inits.items() if cfront.callee_name(cfront.strip(v)) == "fgetc"]
+        loop_inits = c_inits(rd, region=loop)
+        after_inits = c_inits(rd, region={id(x) for x in cfront.walk(body)} - inloop)
+        byte = [k for k, v in loop_inits.items() if cfront.callee_name(cfront.strip(v)) == "fgetc"]
         app = [x for x in cfront.walk(loop) if x.get("kind") == "CXXMemberCallExpr" and cfront.callee_name(x) == "push_back"
                and cfront.render(cfront.strip(x["inner"][0])["inner"][0]) == base]
         appended = len(app) == 1 and len(byte) >= 1 and cfront.render(app[0]["inner"][1]) in byte
@@ -1499,7 +1720,7 @@ def reader_model(rd):
         post_app = [x for x in after if x.get("kind") == "CXXMemberCallExpr" and cfront.callee_name(x) == "push_back"
                     and cfront.render(cfront.strip(x["inner"][0])["inner"][0]) == base]
         other = [cfront.callee_name(x) for x in after if x.get("kind") == "CallExpr" and cfront.callee_name(x) in ("fread", "fgets", "fseek", "fscanf", "getc", "ungetc")]
-        post_ok = all(c_render(x["inner"][1], inits).startswith("fgetc(") for x in post_app)
+        post_ok = all(c_render(x["inner"][1], after_inits).startswith("fgetc(") for x in post_app)
         K = len(post_getc) if len(post_getc) == len(post_app) and post_ok and not other else None
         varskip = None
         for l in later:
@@ -1711,6 +1932,53 @@ def _c_refs(n):
     return {(x.get("referencedDecl") or {}).get("name") for x in cfront.walk(n) if x.get("kind") == "DeclRefExpr"}
 
 
+def _c_refs_members(n):
+    """names of variables and of members of `this` mentioned in an expression"""
+    out = set(_c_refs(n))
+    for x in cfront.walk(n):
+        if x.get("kind") == "MemberExpr" and x.get("name"):
+            out.add(x["name"])
+    return out
+
+
+def _c_writes_file(cfun, fn, depth=0, seen=None):
+    """does the function (or a function of this file it calls) hand bytes to a stream output call on mFptr"""
+    seen = seen if seen is not None else set()
+    if id(fn) in seen or depth > 3:
+        return False
+    seen.add(id(fn))
+    for c in cfront.calls_in(cfront.body_of(fn)):
+        nm = cfront.callee_name(c)
+        if nm in _STREAM_OUT and "mFptr" in _c_refs_members(c):
+            return True
+        g = (cfun.get("Records::%s" % nm) or cfun.get(nm)) if nm else None
+        if g is not None and cfront.has_body(g) and _c_writes_file(cfun, g, depth + 1, seen):
+            return True
+    return False
+
+
+def _c_single_fwrite(fn):
+    """the function's only output call is one fwrite outside any loop"""
+    body = cfront.body_of(fn)
+    outs = [c for c in cfront.calls_in(body) if cfront.callee_name(c) in _STREAM_OUT]
+    inloop = {id(x) for l in cfront.walk(body) if l.get("kind") in ("WhileStmt", "DoStmt", "ForStmt") for x in cfront.walk(l)}
+    return len(outs) == 1 and cfront.callee_name(outs[0]) == "fwrite" and id(outs[0]) not in inloop
+
+
+def _c_subst_params(n, pmap):
+    """copy of an expression with references to parameters replaced by the given argument expressions"""
+    if not isinstance(n, dict) or not pmap:
+        return n
+    if n.get("kind") == "DeclRefExpr":
+        rd = n.get("referencedDecl") or {}
+        if rd.get("kind") == "ParmVarDecl" and rd.get("name") in pmap:
+            return pmap[rd["name"]]
+    out = dict(n)
+    if "inner" in n:
+        out["inner"] = [_c_subst_params(c, pmap) for c in (n.get("inner") or [])]
+    return out
+
+
 def c_derived_names(fn, seeds):
     """names of locals of fn whose value is computed from the seed names: declaration initialisers, assignments, std::string
     append / += / assign, and the destination buffer of sprintf / strcpy / memcpy-like calls; to a fixed point"""
@@ -1883,8 +2151,9 @@ def size_line(chk, repo, cfun):
             if found and clean:
                 return True
         return False
-    rlits = [path_literals(ev, n) for n in ev.view.nodes() if n.kind == "raise"]
-    retlits = [path_literals(ev, n) for n in _returns(ev)]
+    # (a parser moved into a private helper: the raises are the helper's, and its having returned establishes their negations)
+    rlits = [facts_at(e, n) for e, n in all_raises(ev)]
+    retlits = [facts_at(ev, n) for n in _returns(ev)]
     chk.ob(R, "size-parser::one-equals-sign", bool(retlits) and bool(rlits) and all(one_equals(L) for L in retlits), ex.where(),
            "the SIZE line must split into exactly name and value: every return is control dependent on len(line.split('=')) == 2 "
            "(or, with partition, on a separator found and no further '=' in the value), the other outcome raises")
@@ -1927,7 +2196,9 @@ def size_line(chk, repo, cfun):
     gn = repo.func("esutil.sfile.SFile.get_nrows")
     stored = ("sub", ("attr", SELF, "_hdr"), lit("_SIZE"))
     rets = _return_terms(Ev(repo, gn))
-    okn = len(nr) == 1 and (nr[0] == stored or (nr[0] == ("mcall", gn.qualname, ()) and bool(rets) and all(r == stored for r in rets)))
+    # the header held by the handle is the one read_header() returned when open() stored it
+    stored_in_open = (stored, ("sub", ("mcall", "esutil.sfile.SFile.read_header", ()), lit("_SIZE")))
+    okn = len(nr) == 1 and (nr[0] in stored_in_open or (nr[0] == ("mcall", gn.qualname, ()) and bool(rets) and all(r == stored for r in rets)))
     chk.ob(R, "SFile.open::row-count-from-header", okn, so.where(), "the reader is told the stored row count (nrows=%s)" % [show(t) for t in nr])
 
 
@@ -1978,30 +2249,84 @@ def payload(chk, repo, cfun):
     cfi = cfun["Records::copy_field_info"]
     rs = [cfront.render(x["inner"][1]) for x in cfront.walk(cfront.body_of(cfi)) if x.get("kind") == "BinaryOperator" and x.get("opcode") == "=" and cfront.render(x["inner"][0]) == "mRowSize"]
     chk.ob(R, "Records::copy_field_info::row-size-is-itemsize", len(rs) == 1 and "descr" in rs[0] and ("ELSIZE" in rs[0] or "elsize" in rs[0]), cwhere(cfi), "the row size is the dtype's item size (%s)" % rs)
-    wb = cfun["Records::WriteAllAsBinary"]
-    chk.analysed_unit("Records::WriteAllAsBinary")
-    binits = c_inits(wb)
-    fwc = [c for c in cfront.calls_in(cfront.body_of(wb)) if cfront.callee_name(c) == "fwrite"]
-    fw = [c_render(c, binits) for c in fwc]
-    chk.ob(R, "Records::WriteAllAsBinary::single-fwrite", None if not fw else fw == ["fwrite(mData, mRowSize, mNrows, mFptr)"], cwhere(wb), "one fwrite of mNrows rows of mRowSize bytes from the buffer (%s)" % fw)
-    ccfg = cfront.CCFG(wb)
-    thr = [n for n in ccfg.nodes if n.kind == "raise"]
-    rels = [c_controls(ccfg, n, binits) for n in thr]
-    short = False
-    if len(fwc) == 1:
-        cnt = c_render(cfront.call_args(fwc[0])[2], binits)
-        # fwrite returns at most the count asked for: `written < count` and `written != count` both mean a short write
-        short = bool(thr) and any(holds(r, fw[0], "<", cnt) or holds(r, fw[0], "!=", cnt) for r in rels)
-    chk.ob(R, "Records::WriteAllAsBinary::short-write-throws", None if len(fwc) != 1 else short, cwhere(wb), "a short write raises: a throw is control dependent on fwrite(...) < mNrows (%s)" % rels)
+    # The binary path of Write, wherever it lives: the calls of Write that put bytes into the file (fwrite & co. on mFptr, or a
+    # function of this file that does) are sorted by the test on mFileType they are control dependent on.  The one under
+    # `mFileType == BINARY_FILE` is the binary writer; its fwrite is read with the writer's parameters replaced by the arguments
+    # of the call and with the values Write stored in mData / mNrows written as those members.
     wc = cfront.CCFG(w)
-    disp = {}
+    wview = wc.view()
+    arms = {"bin": [], "txt": [], "other": []}
     for n in wc.nodes:
+        if n.id not in wview.reach:
+            continue
         for c in cfront.node_calls(n):
-            if cfront.callee_name(c) in ("WriteAllAsBinary", "WriteRows"):
-                disp.setdefault(cfront.callee_name(c), []).append(c_controls(wc, n, winits))
+            nm = cfront.callee_name(c)
+            g = None
+            if nm in _STREAM_OUT:
+                if "mFptr" not in _c_refs_members(c):
+                    continue
+            else:
+                g = cfun.get("Records::%s" % nm) or cfun.get(nm) if nm else None
+                if g is None or not cfront.has_body(g) or not _c_writes_file(cfun, g):
+                    continue
+            rels = c_controls(wc, n, winits)
+            arm = "bin" if holds(rels, "mFileType", "==", "BINARY_FILE") else ("txt" if holds(rels, "mFileType", "!=", "BINARY_FILE") else "other")
+            arms[arm].append((n, c, g))
+    disp = {k: [cfront.render(c) for _, c, _ in v] for k, v in arms.items()}
+    wb, pmap = None, {}
+    if len(arms["bin"]) == 1:
+        _, bc, g = arms["bin"][0]
+        if g is None:
+            wb = w                      # the fwrite sits in Write itself
+        else:
+            wb = g
+            pmap = {p: c_subst(a_, winits) for p, a_ in zip(cfront.params_of(g), cfront.call_args(bc)) if p}
+    stored = {}
+    for member in ("mData", "mNrows"):
+        if len(wasg.get(member, [])) == 1:
+            stored[cfront.render(wasg[member][0])] = member
+    if wb is None:
+        chk.ob(R, "Records::WriteAllAsBinary::single-fwrite", None, cwhere(w), "the call of Write that writes the rows of a binary file (one call under mFileType == BINARY_FILE) was not found (%s)" % disp)
+    else:
+        chk.analysed_unit("Records::%s" % wb.get("name"))
+        binits = c_inits(wb) if wb is not w else winits
+        if wb is w:
+            fwc = [c for _, c, _ in arms["bin"]]
+        else:
+            fwc = [c for c in cfront.calls_in(cfront.body_of(wb)) if cfront.callee_name(c) in _STREAM_OUT or
+                   ((cfun.get("Records::%s" % cfront.callee_name(c)) or cfun.get(cfront.callee_name(c) or "")) is not None and
+                    _c_writes_file(cfun, cfun.get("Records::%s" % cfront.callee_name(c)) or cfun.get(cfront.callee_name(c))))]
+        fw = [c_render(c, binits) for c in fwc]
+
+        def as_members(c):
+            """the arguments of the fwrite in terms of Write: parameters of the writer -> arguments of its call, values stored in
+            mData / mNrows -> those members"""
+            out = []
+            for a_ in cfront.call_args(c):
+                t = cfront.render(_c_subst_params(c_subst(a_, binits), pmap))
+                out.append(stored.get(t, t))
+            return out
+        one = len(fwc) == 1 and cfront.callee_name(fwc[0]) == "fwrite" and len(cfront.call_args(fwc[0])) == 4
+        got = as_members(fwc[0]) if one else None
+        chk.ob(R, "Records::WriteAllAsBinary::single-fwrite", None if not fw else (one and got == ["mData", "mRowSize", "mNrows", "mFptr"]), cwhere(wb),
+               "one fwrite of mNrows rows of mRowSize bytes from the buffer (%s%s)" % (fw, "" if not got or not pmap else ", i.e. fwrite(%s)" % ", ".join(got)))
+        ccfg = cfront.CCFG(wb)
+        thr = [n for n in ccfg.nodes if n.kind == "raise"]
+        rels = [c_controls(ccfg, n, binits) for n in thr]
+        short = False
+        if one:
+            cnt = c_render(cfront.call_args(fwc[0])[2], binits)
+            # fwrite returns at most the count asked for: `written < count` and `written != count` both mean a short write
+            short = bool(thr) and any(holds(r, fw[0], "<", cnt) or holds(r, fw[0], "!=", cnt) for r in rels)
+        chk.ob(R, "Records::WriteAllAsBinary::short-write-throws", None if not one else short, cwhere(wb), "a short write raises: a throw is control dependent on fwrite(...) < mNrows (%s)" % rels)
     okd = None
-    if len(disp.get("WriteAllAsBinary", [])) == 1 and len(disp.get("WriteRows", [])) == 1:
-        okd = holds(disp["WriteAllAsBinary"][0], "mFileType", "==", "BINARY_FILE") and holds(disp["WriteRows"][0], "mFileType", "!=", "BINARY_FILE")
+    if len(arms["bin"]) == 1 and arms["txt"] and not arms["other"]:
+        okd = True
+    elif arms["bin"] or arms["txt"] or arms["other"]:
+        # the single fwrite reached for text files, the row-by-row writer for binary ones, or either of them whatever the type
+        swapped = any(g is not None and g is not w and _c_single_fwrite(g) for _, _, g in arms["txt"] + arms["other"]) or \
+            any(g is not None and not _c_single_fwrite(g) for _, _, g in arms["bin"])
+        okd = False if swapped else None
     chk.ob(R, "Records::Write::binary-dispatch", okd, cwhere(w), "binary files take the single-fwrite path (%s)" % disp)
     sft = cfun["Records::set_file_type"]
     chk.analysed_unit("Records::set_file_type")
@@ -2013,9 +2338,9 @@ def payload(chk, repo, cfun):
         f = repo.func(q)
         chk.analysed_unit(q)
         fev = Ev(repo, f)
-        z = [(e.ev(c, n), kwterm(e, n, c, "dtype")) for e, n, c in find_calls(fev, named("zeros"), follow=False)]
-        okz = len(z) == 1 and z[0][0][0] == "call" and z[0][0][1] == "numpy.zeros" and len(z[0][0][2]) == 1 and z[0][1] is not None and mentions_term(z[0][1], filedtype)
-        chk.ob(R, f.name + "::zeroed-buffer-of-file-dtype", okz, f.where(), "rows are read into zeros(n, dtype=<file dtype / its column subset>) (%s)" % [show(t) for t, _ in z])
+        z = [(e.ev(c, n), kwterm(e, n, c, "dtype")) for e, n, c in find_calls(fev, named("zeros", "empty"), follow=False)]
+        okz = len(z) == 1 and z[0][0][0] == "call" and z[0][0][1] in ("numpy.zeros", "numpy.empty") and len(z[0][0][2]) == 1 and z[0][1] is not None and mentions_term(z[0][1], filedtype)
+        chk.ob(R, f.name + "::zeroed-buffer-of-file-dtype", okz, f.where(), "rows are read into a freshly allocated array of n rows, zeros(n, dtype=<file dtype / its column subset>) (or numpy.empty: the initial content does not matter to rows the reader fills) (%s)" % [show(t) for t, _ in z])
     op = repo.func("esutil.recfile.Util.Recfile.open")
     oev = Ev(repo, op, flags=BINARY)
     dts = [oev.ev(v, n) if v is not None else None for n, v in oev.attr_defs().get("self.dtype", [])]
@@ -2051,7 +2376,9 @@ def payload(chk, repo, cfun):
     chk.ob(R, "Records::read_from_binary_column::field-sized-read", fr == ["fread(buff, mSizes[colnum], 1, mFptr)"], cwhere(rb), "a column is read as its full byte size into the output (%s)" % fr)
     # SFile dtype from the header
     so = repo.func("esutil.sfile.SFile.open")
-    kw = [t for e, n, c in find_calls(Ev(repo, so), named("Recfile")) if kw_terms(e, n, c, "offset") for t in kw_terms(e, n, c, "dtype")]
+    sev = Ev(repo, so)
+    sev.through_helpers = True      # self._dtype may be stored by a helper method open() calls
+    kw = [t for e, n, c in find_calls(sev, named("Recfile")) if kw_terms(e, n, c, "offset") for t in kw_terms(e, n, c, "dtype")]
     ok = False
     if len(kw) == 1 and kw[0][0] == "call" and kw[0][1] == "numpy.dtype" and len(kw[0][2]) == 1:
         d = kw[0][2][0]
@@ -2910,6 +3237,24 @@ def rec_dispatch(ev, target, with_data):
 
 
 
+def _positional_name(repo, ev, c, i):
+    """name of the i-th positional parameter of the function (or of the class, through its __init__) the call names, when the
+    callee resolves to one of the package; None otherwise"""
+    d = dotted_name(c.func)
+    if d is None or ev.mod is None:
+        return None
+    full = repo.resolve_name(ev.mod, d)
+    f = repo.funcs.get(full)
+    skip = 0
+    if f is None:
+        f, skip = repo.funcs.get(full + ".__init__"), 1
+    if f is None:
+        return None
+    a = f.node.args
+    ps = [x.arg for x in a.posonlyargs + a.args][skip:]
+    return ps[i] if i < len(ps) and i >= len(a.posonlyargs) - skip else None
+
+
 def front_ends(chk, repo):
     R = "R01.5"
     has_data = lambda t: mentions_term(t, ("param", "data"))
@@ -2936,6 +3281,10 @@ def front_ends(chk, repo):
             bad = []
             for role, want in roles.items():
                 a = (c.args[role] if role < len(c.args) else None) if isinstance(role, int) else kwarg(c, role)
+                if a is None and isinstance(role, int) and len(c.args) <= role:
+                    # the positional role handed over by keyword: the name of that parameter of the function / class called
+                    pn = _positional_name(repo, e, c, role)
+                    a = kwarg(c, pn) if pn else None
                 if a is None or any(isinstance(x, ast.Starred) for x in c.args[:role + 1 if isinstance(role, int) else 0]):
                     bad.append("%s missing" % (role,))
                     continue
@@ -3156,27 +3505,48 @@ class HandleFlow:
     def _const_name_loop(self, fi, sn, loop, S):
         """`for name in ("_a", "_b"): setattr(self, name, <constant>)`: a loop over a non-empty constant tuple of names whose body is
         straight-line runs once per name, so when it is left every one of them has been assigned; the effect is applied at the loop head"""
-        if not isinstance(loop.target, ast.Name) or loop.orelse:
+        # the same for a constant table of (name, value) pairs: `for name, value in TABLE: setattr(self, name, value)`; the table
+        # (a module-level constant, a literal, or a table's .items()) is evaluated as a constant, each row bound to the loop variables
+        if loop.orelse:
             return S
+        tg = [loop.target] if isinstance(loop.target, ast.Name) else (list(loop.target.elts) if isinstance(loop.target, (ast.Tuple, ast.List)) else None)
+        if tg is None or not all(isinstance(x, ast.Name) for x in tg):
+            return S
+        it = loop.iter
+        items = isinstance(it, ast.Call) and isinstance(it.func, ast.Attribute) and it.func.attr == "items" and not it.args and not it.keywords
         try:
-            names = const_eval(loop.iter, {}, fi.module)
-        except NotConst:
+            rows = const_eval(it.func.value if items else it, {}, fi.module)
+        except (NotConst, TypeError):
             return S
-        if isinstance(names, (str, bytes, dict)) or not hasattr(names, "__iter__"):
+        if items:
+            if not isinstance(rows, dict):
+                return S
+            rows = list(rows.items())
+        if isinstance(rows, (str, bytes, dict, set, frozenset)) or not hasattr(rows, "__iter__"):
             return S
-        names = list(names)
-        if not names or not all(isinstance(x, str) for x in names):
+        envs = []
+        for r in rows:
+            vals = [r] if isinstance(loop.target, ast.Name) else (list(r) if isinstance(r, (tuple, list)) else None)
+            if vals is None or len(vals) != len(tg):
+                return S
+            envs.append({x.id: v for x, v in zip(tg, vals)})
+        if not envs:
             return S
         if any(isinstance(x, (ast.Break, ast.Continue, ast.Return, ast.Raise, ast.If, ast.Try, ast.While, ast.For, ast.With)) for b in loop.body for x in ast.walk(b)):
             return S
         for b in loop.body:
             c = b.value if isinstance(b, ast.Expr) else None
             if isinstance(c, ast.Call) and isinstance(c.func, ast.Name) and c.func.id == "setattr" and len(c.args) == 3 and not c.keywords \
-                    and isinstance(c.args[0], ast.Name) and c.args[0].id == sn and isinstance(c.args[1], ast.Name) and c.args[1].id == loop.target.id \
-                    and isinstance(c.args[2], ast.Constant):
+                    and isinstance(c.args[0], ast.Name) and c.args[0].id == sn:
+                try:
+                    pairs = [(const_eval(c.args[1], en, fi.module), const_eval(c.args[2], en, fi.module)) for en in envs]
+                except (NotConst, TypeError):
+                    continue
+                if not all(isinstance(nm, str) for nm, _ in pairs):
+                    continue
                 self.unrolled.add(id(c))
-                for nm in names:
-                    S = {self._set(t, nm, "none" if c.args[2].value is None else "set") for t in S}
+                for nm, v in pairs:
+                    S = {self._set(t, nm, "none" if v is None else "set") for t in S}
         return S
 
     def method(self, fi, sn, t):
